@@ -277,6 +277,20 @@ def decl_names(expr, cache):
     return out
 
 
+_NAMES = {}
+_ASYMS = {}
+
+
+def names_of(expr):
+    """decl_names of one expression, memoised (the same hypotheses are packaged into many obligations and variants)"""
+    k = expr.get_id()
+    hit = _NAMES.get(k)
+    if hit is None:
+        hit = (frozenset(decl_names(expr, set())), expr)      # the expression is kept alive so that its id is not reused
+        _NAMES[k] = hit
+    return hit[0]
+
+
 def array_syms(expr, cache):
     """names of uninterpreted symbols that denote containers / heaps / functions (array sort or arity > 0)"""
     out = set()
@@ -322,7 +336,8 @@ def ground_sqrt(body):
                 todo.extend(x.children())
     seen = set()
     for b in body:
-        collect(b, seen)
+        if "sqrt" in names_of(b):
+            collect(b, seen)
     if not apps:
         return body, [], bound[0]
     # innermost first so that nested sqrt terms are replaced consistently
@@ -410,7 +425,7 @@ def package(reg, ctx, res):
         # (older versions of variables havoced again since) and is left out of this variant
         if o.kind != "cover":
             base = always + chosen
-            asym_cache = {}
+            asym_cache = _ASYMS
 
             def asyms(e):
                 k = e.get_id()
@@ -457,7 +472,7 @@ def package(reg, ctx, res):
             seen = set()
             names = set()
             for b in body:
-                names |= decl_names(b, seen)
+                names |= names_of(b)
             used_ax = []
             changed = o.kind != "cover"     # covers: satisfiability of hypotheses + path, axioms left out
             included = set()
@@ -471,7 +486,7 @@ def package(reg, ctx, res):
                         axs = provider()
                         used_ax += axs
                         for a in axs:
-                            names |= decl_names(a, seen)
+                            names |= names_of(a)
                         changed = True
             for a in used_ax:
                 s.add(a)
